@@ -18,6 +18,7 @@ import PdfVerif.Lemmas.Outline
 import PdfVerif.Lemmas.OutlineGraph
 import PdfVerif.Lemmas.OutlineStore
 import PdfVerif.Lemmas.NameTree
+import PdfVerif.Lemmas.NameTreeAny
 
 namespace PdfVerif.Props.C17
 open PdfVerif PdfVerif.Labels PdfVerif.Gen.LabelTables
@@ -731,6 +732,88 @@ example :
     ∧ getDest (some t) none (.bytes [103]) = .notFound
     ∧ getDest (some t) none (.bytes []) = .notFound
     ∧ getDest (some t) (some [([102, 111, 111], 9)]) (.name [102, 111, 111]) = .value 9 := by
+  decide +kernel
+
+/-! ### Arbitrary name trees (round 6): unsorted, duplicate keys, wrong or missing Limits -/
+
+/-- SOUNDNESS on EVERY name tree, conforming or not: whatever `lookup_name` returns for a key is a
+value the tree associates with that key (never a neighbour's value, whatever the Limits say). -/
+theorem C17_nametree_sound (t : Node) (key : Key) (v : Int)
+    (h : lookupName (some t) (.bytes key) = .found v) : (key, v) ∈ flatten t := by
+  simp only [lookupName] at h
+  cases hl : lookup key t with
+  | found w =>
+    rw [hl] at h
+    simp only [Res.found.injEq] at h
+    subst h
+    exact PdfVerif.Lemmas.NameTreeAny.lookup_sound key t w hl
+  | none_ => rw [hl] at h; cases h
+  | keyError => rw [hl] at h; cases h
+
+/-- WHICH DUPLICATE WINS: in a node with a `Names` array (sorted or not, `Kids` ignored), a key inside
+the node's Limits gets the value of its LAST occurrence in the array (`dict(...)` semantics), and
+`KeyError` when it does not occur. -/
+theorem C17_nametree_last_wins (lim : Option (Key × Key)) (ns : List (Key × Int)) (kids : List Node) (key : Key)
+    (hin : outside key lim = false) :
+    lookup key (.node lim (some ns) kids) =
+      match assoc ns.reverse key with
+      | some v => .found v
+      | none => .keyError := by
+  unfold lookup
+  simp only [hin, Bool.false_eq_true, if_false, PdfVerif.Lemmas.NameTreeAny.dictGet_eq_assoc_reverse]
+  cases assoc ns.reverse key <;> rfl
+
+/-- SOUNDNESS of `get_dest` on EVERY catalog: a value returned for a string comes from the name tree
+under that key, a value returned for a name object from the legacy `/Dests` dictionary under that
+name — never from the other structure. -/
+theorem C17_dest_sound (tree : Option Node) (dests : Option (List (Key × Int))) (key : QKey) (v : Int)
+    (h : getDest tree dests key = .value v) :
+    match key with
+    | .bytes k => ∃ t, tree = some t ∧ (k, v) ∈ flatten t
+    | .name n => ∃ d, dests = some d ∧ (n, v) ∈ d := by
+  cases key with
+  | bytes k =>
+    cases tree with
+    | none => simp [getDest, lookupName] at h
+    | some t =>
+      refine ⟨t, rfl, ?_⟩
+      apply C17_nametree_sound t k v
+      cases hl : lookupName (some t) (.bytes k) with
+      | found w =>
+        simp only [getDest, hl, DestRes.value.injEq] at h
+        rw [h]
+      | none_ => simp [getDest, hl] at h
+      | keyError => simp [getDest, hl] at h
+  | name n =>
+    have hl : lookupName tree (.name n) = .keyError := by cases tree <;> rfl
+    cases dests with
+    | none => simp [getDest, hl] at h
+    | some d =>
+      refine ⟨d, rfl, ?_⟩
+      simp only [getDest, hl] at h
+      have e : assocName d n = assoc d n := rfl
+      cases ha : assoc d n with
+      | some w =>
+        rw [e, ha] at h
+        simp only [DestRes.value.injEq] at h
+        subst h
+        exact mem_of_assoc ha
+      | none => rw [e, ha] at h; cases h
+
+/-- Non-vacuity: an unsorted leaf with a duplicate key (the last `b` wins); a root with Names AND Kids
+(Kids ignored); Kids without Limits where the first kid lacks the key (`KeyError` although a later
+kid has it — the reason ISO requires Limits); the returned values are in the flattening. -/
+example :
+    let leaf : Node := .node none (some [([98], 1), ([97], 2), ([98], 3)]) []
+    let mixed : Node := .node none (some [([97], 5)]) [.node none (some [([98], 6)]) []]
+    let nolim : Node := .node none none [.node none (some [([97], 7)]) [], .node none (some [([98], 8)]) []]
+    lookupName (some leaf) (.bytes [98]) = .found 3
+    ∧ lookupName (some leaf) (.bytes [97]) = .found 2
+    ∧ lookupName (some mixed) (.bytes [98]) = .keyError
+    ∧ lookupName (some nolim) (.bytes [97]) = .found 7
+    ∧ lookupName (some nolim) (.bytes [98]) = .keyError
+    ∧ getDest (some leaf) (some [([98], 9)]) (.name [98]) = .value 9
+    ∧ getDest (some leaf) (some [([98], 9)]) (.bytes [98]) = .value 3 := by
   decide +kernel
 
 end NameTree
